@@ -640,10 +640,11 @@ Theorem checker_accepts_model c :
   mode c = 0%N -> o_wrap c = None -> agrees c = true -> violation c = [].
 Proof.
   intros M Wn Ag. unfold agrees in Ag. rewrite !andb_true_iff in Ag.
-  destruct Ag as (((((_ & R) & _) & Lk) & _) & _).
+  destruct Ag as ((((((_ & R) & _) & Lk) & _) & _) & _).
   apply list_eqb_bytes_eq in Lk.
   unfold violation. rewrite Wn, app_nil_r.
-  unfold res_agrees in R. rewrite M in R. cbn [N.eqb] in R.
+  unfold res_agrees, pending in R. rewrite M in R. cbn [N.eqb] in R.
+  rewrite andb_false_r in R. cbn [andb] in R.
   destruct (res (model_run c)) as [a t|k] eqn:E.
   2: { apply N.eqb_eq in R. rewrite R. destruct k; reflexivity. }
   rewrite !andb_true_iff in R. destruct R as [[R0 Ra] Rt].
@@ -864,4 +865,190 @@ Proof.
   intros S N ev. subst ev. rewrite node_run_snoc, S. cbn [node_step fst snd].
   destruct (refuse_initiator c o wf sc N) as (k & R & _). rewrite R. split; [reflexivity|].
   left. reflexivity.
+Qed.
+
+(* ---- a remote that stalls ---------------------------------------------------------------------------------- *)
+(* Responder blocked in a read after the whole script: no (A, T) is admissible for what has arrived (so
+   nothing is registered or announced: C04_responder); the model's end-of-script result IS the cancelled
+   read; and when the context ends the read, whatever arrives afterwards, the handshake is refused as a
+   failed read: stream reset, all connections of the peer closed, no block, nothing announced. *)
+Theorem stalled_responder c o wfail script :
+  handle_waits c o wfail script = true ->
+  (forall A T, ~ resp_ok c o wfail script A T) /\
+  (forall more, handle c o wfail (script ++ eof :: more) = handle c o wfail script) /\
+  res (handle c o wfail script) = Refuse RRead /\
+  (forall more has_notifier add,
+     inbound c o wfail (script ++ eof :: more) has_notifier add = [EResetStream; EClosePeer]).
+Proof.
+  intros W.
+  assert ((forall more, handle c o wfail (script ++ eof :: more) = handle c o wfail script) /\
+          res (handle c o wfail script) = Refuse RRead /\
+          (script = [] \/ exists f1, script = [f1])) as (E & R & S).
+  { unfold handle_waits in W. destruct script as [|f1 rest].
+    - repeat split; auto.
+    - unfold handle. cbn [app].
+      destruct (as_req f1) as [[[role token] sig]|]; [|discriminate W].
+      destruct (verify_req o role token sig) as [[a|r] lk]; [|discriminate W].
+      destruct (wfail 0%nat); [discriminate W|]. destruct (wfail 1%nat); [discriminate W|].
+      destruct rest as [|f2 rest]; [|discriminate W].
+      repeat split; auto. right. exists f1. reflexivity. }
+  repeat split; auto.
+  - intros A T (role & token & sig & ea & er & f1 & f2 & rest & S' & _).
+    destruct S as [-> | [f ->]]; discriminate S'.
+  - intros more hn add. unfold inbound. rewrite E, R.
+    destruct (refusal_blocks add hn) as (_ & _ & _ & _ & _ & _ & H).
+    apply (H RRead); discriminate.
+Qed.
+
+Theorem stalled_initiator c o wfail script :
+  handshake_waits c o wfail script = true ->
+  (forall A T, ~ init_ok c o wfail script A T) /\
+  (forall more, handshake c o wfail (script ++ eof :: more) = handshake c o wfail script) /\
+  res (handshake c o wfail script) = Refuse RRead /\
+  (forall more add,
+     outbound c o wfail (script ++ eof :: more) add = [EClosePeer; EReturnErr RRead]).
+Proof.
+  intros W.
+  assert ((forall more, handshake c o wfail (script ++ eof :: more) = handshake c o wfail script) /\
+          res (handshake c o wfail script) = Refuse RRead /\
+          (script = [] \/ exists f1, script = [f1])) as (E & R & S).
+  { unfold handshake_waits in W. unfold handshake.
+    destruct (wfail 0%nat); [discriminate W|].
+    destruct script as [|f1 rest].
+    - repeat split; auto.
+    - cbn [app]. destruct (as_resp f1) as [[ea er]|]; [|discriminate W].
+      destruct (echo_ok c ea er); cbn [negb] in *; [|discriminate W].
+      destruct rest as [|f2 rest]; [|discriminate W].
+      repeat split; auto. right. exists f1. reflexivity. }
+  repeat split; auto.
+  - intros A T (role & token & sig & ea & er & f1 & f2 & rest & S' & _).
+    destruct S as [-> | [f ->]]; discriminate S'.
+  - intros more add. unfold outbound. rewrite E, R.
+    destruct (refusal_blocks add true) as (_ & _ & _ & _ & _ & _ & H).
+    apply (H RRead); discriminate.
+Qed.
+
+(* a run that does not wait has consumed everything it will ever read: later frames change nothing *)
+Theorem finished_responder_ignores_later_frames c o wfail script more :
+  handle_waits c o wfail script = false -> handle c o wfail (script ++ more) = handle c o wfail script.
+Proof.
+  unfold handle_waits, handle. destruct script as [|f1 rest]; [intros H; discriminate H|]. cbn [app].
+  destruct (as_req f1) as [[[role token] sig]|]; [|reflexivity].
+  destruct (verify_req o role token sig) as [[a|r] lk]; [|reflexivity].
+  destruct (wfail 0%nat); [reflexivity|]. destruct (wfail 1%nat); [reflexivity|].
+  destruct rest as [|f2 rest]; [intros H; discriminate H|]. reflexivity.
+Qed.
+
+(* the stake gate is decided by the exact string "provider": enrolment as provider, and a registry
+   lookup, happen for that spelling only; every other verified role string is enrolled without lookup,
+   the three known spellings with their type, anything else with type -1 *)
+Theorem provider_exactly c o wfail script A T role token sig f1 rest :
+  script = f1 :: rest -> as_req f1 = Some (role, token, sig) ->
+  res (handle c o wfail script) = Enrol A T ->
+  (T = type_provider <-> role = provider_string) /\
+  (lookups (handle c o wfail script) <> [] <-> role = provider_string) /\
+  (T = -1 <-> ~ In role valid_roles).
+Proof.
+  intros -> Q R. pose proof (handle_lookups_enrolled _ _ _ _ _ _ R) as L.
+  pose proof R as R'. apply handle_enrol_iff in R'.
+  destruct R' as (role' & token' & sig' & ea & er & f1' & f2 & rest' & S & Q' & _ & -> & _).
+  inversion S. subst f1' rest. rewrite Q in Q'. inversion Q'. subst role' token' sig'.
+  repeat split.
+  - apply role_of_string_provider.
+  - apply role_of_string_provider.
+  - intros N. rewrite L in N. destruct (role_of_string role =? type_provider) eqn:E.
+    + apply Z.eqb_eq, role_of_string_provider in E. exact E.
+    + contradiction N. reflexivity.
+  - intros P. rewrite L. apply role_of_string_provider in P. rewrite P. discriminate.
+  - intros E V. apply role_of_string_valid in V. contradiction.
+  - intros NV. destruct (Z.eq_dec (role_of_string role) (-1)) as [E|E]; [exact E|].
+    apply role_of_string_valid in E. contradiction.
+Qed.
+
+(* ---- the checker on end-to-end cases: silent on the model there too ----------------------------------------------
+   (fresh remote: no prior entry; not a stalled case) *)
+Lemma note_eqb_eq x y : note_eqb x y = true -> x = y.
+Proof.
+  destruct x as [a t], y as [b u]. unfold note_eqb. cbn. rewrite andb_true_iff.
+  intros [H1 H2]. apply bytes_eqb_eq in H1. apply Z.eqb_eq in H2. subst. reflexivity.
+Qed.
+Lemma list_note_eqb_eq a b : list_eqb note_eqb a b = true -> a = b.
+Proof.
+  revert b. induction a as [|x a IH]; destruct b as [|y b]; cbn; intros H; try discriminate H; auto.
+  apply andb_true_iff in H. destruct H as [H1 H2]. apply note_eqb_eq in H1. subst. f_equal. auto.
+Qed.
+
+(* the enrolment the model predicts passes the checker's clauses *)
+Lemma model_enrolment_passes c a t :
+  res (model_run c) = Enrol a t -> lookups (model_run c) = o_lookups c -> enrol_violation c a t = None.
+Proof.
+  intros E Lk. unfold model_run in *.
+  destruct (dir c =? 0)%N eqn:D.
+  - pose proof (handle_lookups_enrolled _ _ _ _ _ _ E) as L.
+    apply handle_enrol_iff in E.
+    destruct E as (role & token & sig & ea & er & f1 & f2 & rest & S & Q & V & T & _ & _ & P & Ec).
+    apply (enrol_violation_none c _ _ role token sig ea er); auto.
+    + unfold claimed. rewrite D, S. exact Q.
+    + unfold echoed. rewrite D, S. exact P.
+    + intros Tp. rewrite <- Lk, L, Tp. cbn. rewrite bytes_eqb_refl. reflexivity.
+  - pose proof (handshake_lookups_enrolled _ _ _ _ _ _ E) as L.
+    apply handshake_enrol_iff in E.
+    destruct E as (role & token & sig & ea & er & f1 & f2 & rest & S & _ & P & Ec & Q & V & T & _).
+    apply (enrol_violation_none c _ _ role token sig ea er); auto.
+    + unfold claimed. rewrite D, S. exact Q.
+    + unfold echoed. rewrite D, S. exact P.
+    + intros Tp. rewrite <- Lk, L, Tp. cbn. rewrite bytes_eqb_refl. reflexivity.
+Qed.
+
+Lemma node_step_fresh c :
+  prior c = None ->
+  node_step (cfg c) (prior c) (event_of c) =
+  match res (model_run c) with
+  | Enrol a t => (Some (a, t), if (dir c =? 0)%N then [ERegister a t; ENotify a t] else [ERegister a t; EReturnPeer a t])
+  | Refuse k => (None, if (dir c =? 0)%N then handle_connect_req true Added (Refuse k) else connect_tail Added true (Refuse k))
+  end.
+Proof.
+  intros P. rewrite P. unfold event_of, model_run. destruct (dir c =? 0)%N; cbn [node_step add_outcome fst snd].
+  - destruct (res (handle (cfg c) (oracles_of c) (wfail_of c) (script c))) as [a t|k]; cbn; [reflexivity|].
+    rewrite app_nil_r. reflexivity.
+  - destruct (res (handshake (cfg c) (oracles_of c) (wfail_of c) (script c))) as [a t|k]; reflexivity.
+Qed.
+
+Theorem checker_accepts_model_e2e c w :
+  mode c <> 0%N -> o_wrap c = Some w -> prior c = None -> stall c = false ->
+  agrees c = true -> violation c = [].
+Proof.
+  intros M Wn Pr St Ag. unfold agrees in Ag. rewrite !andb_true_iff in Ag.
+  destruct Ag as ((((((_ & R) & _) & Lk) & _) & W) & _).
+  apply list_eqb_bytes_eq in Lk.
+  assert (pending c = false) as Pe by (unfold pending; rewrite St; reflexivity).
+  unfold res_agrees in R. unfold wrap_agrees in W. rewrite Wn, Pe in W. rewrite Pe in R.
+  rewrite !andb_true_iff in W.
+  destruct W as ((((((Wr & Wg) & Wn') & _) & Wc) & Wrec) & W2).
+  apply list_note_eqb_eq in Wn'.
+  unfold violation. rewrite Wn.
+  unfold entry_of, model_effects, follow_up, entry_of in *. rewrite (node_step_fresh c Pr) in *.
+  destruct (res (model_run c)) as [a t|k] eqn:E.
+  - rewrite !andb_true_iff in R. destruct R as [[R0 Ra] Rt].
+    apply bytes_eqb_eq in Ra. apply Z.eqb_eq in Rt. subst.
+    rewrite R0. rewrite (model_enrolment_passes c _ _ E Lk). cbn [app fst snd] in *.
+    cbn [node_step snd] in Wrec.
+    assert (w_record w = Some (o_addr c, o_role c)) as ->.
+    { cbn in Wrec. destruct (w_record w) as [n|]; [|discriminate Wrec]. apply note_eqb_eq in Wrec. subst. reflexivity. }
+    cbn [fst snd]. rewrite (model_enrolment_passes c _ _ E Lk).
+    rewrite Wn'. destruct (dir c =? 0)%N; cbn; rewrite ?(model_enrolment_passes c _ _ E Lk); reflexivity.
+  - cbn [fst snd] in *.
+    assert (w_record w = None) as -> by (cbn in Wrec; destruct (w_record w); [discriminate Wrec | reflexivity]).
+    assert (w_registered w = false) as -> by (destruct (w_registered w); [discriminate Wr | reflexivity]).
+    assert (w_notified w = []) as ->.
+    { rewrite Wn'. destruct (dir c =? 0)%N; cbn; [|rewrite flat_map_app].
+      - unfold block_effects. destruct c04_inbound_durations as [|? [|? [|? [|? ?]]]]; destruct k; reflexivity.
+      - unfold block_effects. destruct c04_outbound_durations as [|? [|? [|? [|? ?]]]]; destruct k; reflexivity. }
+    assert (w_closed w = true) as ->.
+    { apply eqb_prop in Wc. rewrite Wc. destruct (dir c =? 0)%N; reflexivity. }
+    assert ((o_res c =? 0)%N = false /\ (o_res c =? 12)%N = false) as [-> ->].
+    { destruct (mode c =? 0)%N eqn:M0; [apply N.eqb_eq in M0; contradiction|].
+      destruct (mode c =? 1)%N; [apply N.eqb_eq in R; rewrite R; split; reflexivity|].
+      destruct k; apply N.eqb_eq in R; rewrite R; split; reflexivity. }
+    reflexivity.
 Qed.
